@@ -7,6 +7,7 @@ RULE = ("documents: every symbol string up to MaxLen over a 17-symbol alphabet (
         "evaluated side by side (a disagreement between the two oracles is a spec bug, not a violation); Valid / Unmarshal value / "
         "Compact / Indent compared; trees: every value tree of depth <= 2 over 24 leaf kinds of every uGO type: Marshal must return "
         "an error or valid JSON, for representable trees the bytes of encoding/json and a faithful round trip; "
+        "near-valid documents: 14 valid skeleton documents (members, elements, nesting, white space, numbers, escapes) changed by every single-symbol insertion, deletion and replacement (thorough: every pair of edits); "
         "non-trivial = documents the recogniser accepts, and all trees")
 
 def leaves(t):
@@ -19,10 +20,12 @@ def run(ctx):
     ctx.tlc("UgoJson", "UgoJson_trees", env=dict(OUT=tout), timeout=600, name="json-trees")
     sout = ctx.path("strs.ndjson")
     ctx.tlc("UgoJson", "UgoJson_strbody" if ctx.quick else "UgoJson_strbody_t", env=dict(OUT=sout), timeout=1200, name="json-strings")
-    ndocs = sum(1 for _ in open(out)) + sum(1 for _ in open(sout))
-    nacc = sum(1 for l in open(out) if 'accept\\":true' in l) + sum(1 for l in open(sout) if 'accept\\":true' in l)
+    nout = ctx.path("near.ndjson")
+    ctx.tlc("UgoJson", "UgoJson_near" if ctx.quick else "UgoJson_near_t", env=dict(OUT=nout), timeout=2400, name="json-near")
+    ndocs = sum(1 for _ in open(out)) + sum(1 for _ in open(sout)) + sum(1 for _ in open(nout))
+    nacc = sum(1 for p_ in (out, sout, nout) for l in open(p_) if 'accept\\":true' in l)
     ntrees = sum(1 for _ in open(tout))
-    for label, path in (("docs", out), ("strings", sout), ("trees", tout)):
+    for label, path in (("docs", out), ("strings", sout), ("near", nout), ("trees", tout)):
         res = ctx.path("res-%s.ndjson" % label)
         ctx.vh("c17", path, res)
         for r in vlib.read_ndjson(res):
